@@ -225,7 +225,7 @@ class GFCrystalcalc(object):
         for i, site in enumerate(GFcalc.invmap):
             GFcalc.sitelist[site].append(i)
         GFcalc.jumppairs = tuple((pair[0], pair[1]) for pair in HDF5group['jumppairs'])
-        GFcalc.D, GFcalc.eta = 0, 0  # we don't yet know the diffusivity
+        GFcalc.D, GFcalc.eta = None, 0  # we don't yet know the diffusivity
         return GFcalc
 
     def FourierTransformJumps(self, jumpnetwork, N, kpts):
